@@ -144,10 +144,16 @@ def shrink(ops, fails):
 
 def check_histories(ctx, hists, tag):
     binary = ctx.harness("debug")
-    recs = yvlib.run_harness(binary, [hist_line(h) for h in hists], quarantine=True, case_timeout_ms=3000)
+    small = [i for i, h in enumerate(hists) if len(h) <= 2000]
+    big = [i for i, h in enumerate(hists) if len(h) > 2000]
+    recs = [None] * len(hists)
+    for i, r in zip(small, yvlib.run_harness(binary, [hist_line(hists[i]) for i in small], quarantine=True, case_timeout_ms=3000)):
+        recs[i] = r
+    for i in big:   # long growth histories: alone, with a generous time-out (a loaded machine is not a hang)
+        recs[i] = yvlib.run_harness(binary, [hist_line(hists[i])], quarantine=True, shards=1, case_timeout_ms=180000)[0]
     reruns = 0
     for i, r in enumerate(recs):
-        if r.crashed and len(hists[i]) < 2000 and reruns < 8:
+        if r.crashed and i in small and reruns < 8:
             reruns += 1
             # a time-out under load is not a crash of the table: run the history once more, alone, with more time
             recs[i] = yvlib.run_harness(binary, [hist_line(hists[i])], quarantine=True, shards=1, case_timeout_ms=20000)[0]
@@ -242,7 +248,7 @@ def collision_program(pair):
 
 def long_program(rng, t):
     """the same long text (around and beyond 4096 bytes) produced by two routes"""
-    routes = [r for r in ROUTES if r[0] in ("literal", "concat", "interp", "from", "iter", "concat3", "replace_long") or r[0].startswith(("slice@", "split@"))]
+    routes = [r for r in ROUTES if r[0] in ("literal", "concat", "interp", "from", "concat3", "replace_long") or r[0].startswith(("slice@", "split@"))]
     r1, r2 = rng.choice(routes), rng.choice(routes)
     src = "\n".join(["var a = %s;" % r1[1](t), "var b = %s;" % r2[1](t),
                      "print(a == b); print(a.len()); var m = {a: 1}; print(m.has_key(b)); m.insert(b, 2); print(m.len());",
@@ -348,10 +354,10 @@ def run(ctx):
         hists = [[(bool(i), int(h), yvlib.unhx(s)) for i, h, s in ctx.replay_only["ops"]]]
         check_histories(ctx, hists, "replay")
         return
-    nh = 300 if quick else 6000
+    nh = 300 if quick else 2500
     hists = corpus + [gen_history(rng, (120 if rng.random() < 0.97 else 700) if quick else (200 if rng.random() < 0.9 else 1500)) for _ in range(nh)]
     if not quick:
-        hists += [gen_history(rng, 14000) for _ in range(3)]
+        hists += [gen_history(rng, 6000) for _ in range(2)]
     n, nontriv, _ = check_histories(ctx, hists, "hist")
     # shrink the first violation found on histories (bounded effort), recompute its expected/actual
     binary = ctx.harness("debug")
@@ -421,8 +427,14 @@ def run(ctx):
     progs += [numtext_program(rng, vt) for vt in NUMTEXT for _ in range(4 if quick else 25)]
     precs = yvlib.run_harness(binary, ["run - " + hx(p[0]) for p in progs])
     routes = set()
+    retried = 0
     for (src, expect, meta), r in zip(progs, precs):
         routes.add(meta[:3])
+        if r.result[0] == "crash" and "timeout" in str(r.result) and retried < 12:
+            # the collecting debug build is quadratic on long texts; a time-out under load is not a verdict:
+            # run the program once more, alone, on the release build with a long time-out
+            retried += 1
+            r = yvlib.run_harness(ctx.harness("release"), ["run - " + hx(src)], shards=1, case_timeout_ms=120000)[0]
         if r.result[0] != "ok" or r.output != expect:
             ctx.violation("strings built by routes %s/%s compare/hash differently from their bytes" % meta[:2],
                           input=src, expected=expect, actual=r.output + [str(r.result)])
@@ -459,7 +471,7 @@ def run(ctx):
         if rr.result[0] != "ok" or rr.output != want or rr.uaf:
             ctx.violation("a string held by the host across Vm::reset() is no longer the same string as an equal text created afterwards",
                           input="c01seq reset token | " + s1 + " | " + s2, expected=want, actual=rr.output + [str(rr.result), "uaf=%s" % rr.uaf])
-    ctx.cov.update({"volume_strings": 2 * nvol, "reset_cases": reset_cases})
+    ctx.cov.update({"volume_strings": 2 * nvol, "reset_cases": reset_cases, "program_timeouts_retried_on_release": retried})
     ctx.cov.update({
         "evaluations": n + len(texts) + len(progs),
         "distinct_nontrivial": len(nontriv) + len(routes),
